@@ -21,7 +21,7 @@ def out_tokens(tree):
             return
         dst = notes if in_note else main
         for k, v in n[1].items():
-            if k not in SKIP_ATTRS:
+            if k not in SKIP_ATTRS or (k == 'by' and not v.startswith('#')):   # a `by` derived from the FROM line starts with '#'
                 dst.extend(TOKEN.findall(v))
                 ATTR_TOKENS.update(TOKEN.findall(v))
         for k in n[2]:
